@@ -130,6 +130,32 @@ def run_driver(lines, timeout=3600):
     return out
 
 
+class ImplTimeout(BaseException):
+    """the implementation did not return within the time limit of one case"""
+
+
+def limited(seconds, fn, *args, **kw):
+    """run fn under a wall-clock limit: an implementation that loops is an observation, not a hang of the check.
+    Works in any thread (the checks run their bodies in a big-stack thread, where SIGALRM is not available): a trace
+    function looks at the clock every few hundred line events and raises ImplTimeout in the running code."""
+    import sys, time
+    deadline = time.monotonic() + seconds
+    count = [0]
+
+    def tracer(frame, event, arg):
+        count[0] += 1
+        if count[0] % 400 == 0 and time.monotonic() > deadline:
+            sys.settrace(None)
+            raise ImplTimeout()
+        return tracer
+    old = sys.gettrace()
+    sys.settrace(tracer)
+    try:
+        return fn(*args, **kw)
+    finally:
+        sys.settrace(old)
+
+
 def known_findings():
     f = os.path.join(VERIF, "known_findings.json")
     if not os.path.exists(f):
